@@ -12,7 +12,8 @@
 (* iostart / ioend (READ, WRITE, SETATTR or OPEN held in flight), blocked  *)
 (* (a request that waits for the in-flight OPEN of its open-owner; when it *)
 (* completes it is an ordinary op), hang (such a request never woke up),   *)
-(* panic, final.                                                           *)
+(* lockheld (the server lock was left held by a request that returned;     *)
+(* property C14), panic, final.                                            *)
 (***************************************************************************)
 EXTENDS NFS40, Json, TLCExt
 
@@ -447,7 +448,17 @@ TPanic ==
                 ELSE "C18:server-panic-in-state-accounting"
   /\ UNCHANGED <<s, last, nonconf, obs, seen>>
 
-TNext == TReset \/ TTick \/ TVanish \/ TOp \/ TIOStart \/ TIOEnd \/ TBlocked \/ THang \/ TFinal \/ TPanic
+\* The program lock of the server could not be acquired although no request
+\* was executing inside the server (every request sent had returned, was held
+\* inside a leaf, where the lock is not held, or was waiting for its
+\* open-owner's transaction, for which it leaves the server): a request has
+\* returned without releasing it.  The driver ends the history there.
+TLockHeld ==
+  /\ IsEvent("lockheld")
+  /\ verdict' = "C14:server-lock-left-held-after-a-request-returned"
+  /\ UNCHANGED <<s, last, nonconf, obs, seen>>
+
+TNext == TReset \/ TTick \/ TVanish \/ TOp \/ TIOStart \/ TIOEnd \/ TBlocked \/ THang \/ TFinal \/ TPanic \/ TLockHeld
 
 TraceSpec == TInit /\ [][TNext]_tvars
 
